@@ -1,4 +1,5 @@
 import numpy as np
+from math import factorial
 
 
 def poisson(kmean: float) -> callable:
@@ -9,6 +10,6 @@ def poisson(kmean: float) -> callable:
     """
 
     def p(k: int) -> float:
-        return np.exp(-kmean) * pow(kmean, k) / np.math.factorial(k)
+        return np.exp(-kmean) * pow(kmean, k) / factorial(k)
 
     return p
